@@ -523,6 +523,8 @@ type manyRoute struct {
 	times   []int32
 	total   int64
 	garbled int64
+	rmu     sync.Mutex
+	revisit map[int]string // value id of a revisit call -> the line that arrived
 }
 
 func (r *manyRoute) Dispatch(buf []byte) {
@@ -533,12 +535,26 @@ func (r *manyRoute) Dispatch(buf []byte) {
 		return
 	}
 	id, err := strconv.Atoi(string(f[1]))
+	if err == nil && id > len(r.names) && r.revisit != nil {
+		// a revisit call (see TestManyNames): value id = len(names) + 1 + call number
+		r.rmu.Lock()
+		r.revisit[id] = string(buf)
+		r.rmu.Unlock()
+		return
+	}
 	if err != nil || id < 1 || id > len(r.names) || string(f[0]) != r.names[id-1] ||
 		string(f[2]) != strconv.FormatUint(uint64(r.ts[id-1]), 10) {
 		atomic.AddInt64(&r.garbled, 1)
 		return
 	}
 	atomic.AddInt32(&r.times[id-1], 1)
+}
+
+func b2i(b bool) int {
+	if b {
+		return 1
+	}
+	return 0
 }
 
 func TestManyNames(t *testing.T) {
@@ -639,6 +655,49 @@ func TestManyNames(t *testing.T) {
 	el := time.Since(t0)
 	delta := ooo.Count() - before
 
+	// revisit: the register of a name must still hold its accepted timestamp after millions of points of OTHER names.
+	// The names dispatched first come back, one at a time: a point with the SAME timestamp (not newer: rejected,
+	// counted, reported) and then one with a newer timestamp (accepted).
+	nrev := hx.EnvInt("VERIF_ORD_MANY_REVISIT", 40)
+	type rev struct {
+		i          int
+		cSame, cUp int
+		fwdSame    bool
+		fwdUp      bool
+		oooSame    int64
+		oooUp      int64
+	}
+	var revs []rev
+	mainTotal := atomic.LoadInt64(&cap.total)
+	cap.revisit = map[int]string{}
+	for k := 0; k < nrev && k < len(lists[k%ng]); k++ {
+		i := int(lists[k%ng][k/ng]) // among the first names each goroutine dispatched
+		if cap.times[i] != 1 {
+			continue
+		}
+		r := rev{i: i, cSame: total + 1 + 2*k, cUp: total + 2 + 2*k}
+		for step, c := range []int{r.cSame, r.cUp} {
+			ts := cap.ts[i]
+			if step == 1 {
+				ts = ts0 + 1 + uint32(k)
+			}
+			b0 := ooo.Count()
+			line := []byte(names[i] + " " + strconv.Itoa(c) + " " + strconv.FormatUint(uint64(ts), 10))
+			tbl.Dispatch(line)
+			cap.rmu.Lock()
+			_, fwd := cap.revisit[c]
+			cap.rmu.Unlock()
+			if step == 0 {
+				r.fwdSame, r.oooSame = fwd, ooo.Count()-b0
+			} else {
+				r.fwdUp, r.oooUp = fwd, ooo.Count()-b0
+			}
+		}
+		revs = append(revs, r)
+	}
+	_ = mainTotal
+	delta = ooo.Count() - before // the rejections of the revisit calls belong to the totals
+
 	// projection
 	var odd []int // did not arrive exactly once
 	for i := range cap.times {
@@ -697,6 +756,17 @@ func TestManyNames(t *testing.T) {
 		}
 		lg.Emit(map[string]interface{}{"ev": "finp", "bad": isbad, "badcall": badcall})
 	}
+	for _, r := range revs {
+		c1 := int64(r.i) + 1
+		lg.Emit(map[string]interface{}{"ev": "hist", "h": fmt.Sprintf("r%d", r.i), "fam": "many", "name": names[r.i], "why": "revisit"})
+		lg.Emit(map[string]interface{}{"ev": "begin", "c": c1, "ts": int64(cap.ts[r.i]), "dot": false, "exp": expOf(true)})
+		lg.Emit(map[string]interface{}{"ev": "end", "c": c1, "fwd": true, "times": 1})
+		lg.Emit(map[string]interface{}{"ev": "begin", "c": int64(r.cSame), "ts": int64(cap.ts[r.i]), "dot": false, "exp": expOf(r.fwdSame)})
+		lg.Emit(map[string]interface{}{"ev": "end", "c": int64(r.cSame), "fwd": r.fwdSame, "times": b2i(r.fwdSame)})
+		lg.Emit(map[string]interface{}{"ev": "begin", "c": int64(r.cUp), "ts": int64(ts0 + 1), "dot": false, "exp": expOf(r.fwdUp)})
+		lg.Emit(map[string]interface{}{"ev": "end", "c": int64(r.cUp), "fwd": r.fwdUp, "times": b2i(r.fwdUp)})
+		lg.Emit(map[string]interface{}{"ev": "finp", "bad": !r.fwdSame && r.oooSame == 1, "badcall": int64(r.cSame)})
+	}
 	oddnames := []string{}
 	for k, i := range odd {
 		if k < 40 {
@@ -704,9 +774,9 @@ func TestManyNames(t *testing.T) {
 		}
 	}
 	lg.Emit(map[string]interface{}{"ev": "hist", "h": "mtotal", "fam": "many-total"})
-	lg.Emit(map[string]interface{}{"ev": "total", "n": total, "fwd": atomic.LoadInt64(&cap.total), "ooo": delta,
+	lg.Emit(map[string]interface{}{"ev": "total", "n": total + 2*len(revs), "fwd": atomic.LoadInt64(&cap.total), "ooo": delta,
 		"garbled": atomic.LoadInt64(&cap.garbled), "odd": len(odd), "listed": len(order), "oddnames": oddnames,
 		"goroutines": ng, "pairs": npair / 2, "badrecords": len(bad), "dispatch_ms": el.Milliseconds(),
-		"ts_hi": ts0, "ts_lo": ts0 - int64(total)/64})
+		"ts_hi": ts0, "ts_lo": ts0 - int64(total)/64, "revisited": len(revs)})
 	lg.Emit(map[string]interface{}{"ev": "done", "n": total})
 }
